@@ -306,6 +306,13 @@ impl Env {
         SimFile::create(self, Role::Source, bytes)
     }
 
+    /// A source with `len` virtual zero bytes inserted at offset `at` of `bytes`.
+    pub fn new_sparse_source(&self, bytes: Vec<u8>, at: u64, len: u64) -> SimFile {
+        let mut f = SimFile::create(self, Role::Source, bytes);
+        f.hole = Some((at, len));
+        f
+    }
+
     pub fn fs(&self) -> SimFs {
         SimFs { env: self.clone() }
     }
@@ -372,6 +379,9 @@ pub struct SimFile {
     /// accepted but not yet flushed bytes (buffered sinks/chunks only); they logically follow `data`
     pending: Vec<u8>,
     buffered: bool,
+    /// sparse sources: `hole.1` virtual zero bytes sit at logical offset `hole.0` (a file larger than
+    /// memory: the bytes after the hole live at logical offsets >= hole.0 + hole.1)
+    hole: Option<(u64, u64)>,
 }
 
 impl SimFile {
@@ -403,6 +413,7 @@ impl SimFile {
             rng: Rng::new(seed),
             pending: Vec::new(),
             buffered,
+            hole: None,
         }
     }
 
@@ -461,6 +472,7 @@ impl Clone for SimFile {
             rng: Rng::new(seed),
             pending: Vec::new(),
             buffered: false,
+            hole: self.hole,
         }
     }
 }
@@ -485,9 +497,24 @@ impl Read for SimFile {
             e.log(IoEvent { file: self.id, kind: IoKind::Read, off, req: buf.len() as u64, out: -2 });
             return Err(Self::fault_err(io_kind_for(f.err, IoKind::Read), f.k));
         }
+        let (hole_at, hole_len) = self.hole.unwrap_or((u64::MAX, 0));
+        if self.pos >= hole_at && self.pos < hole_at.saturating_add(hole_len) {
+            // No block lives inside the hole: a reader that ends up here has mis-computed an offset.
+            // Serving terabytes of zeros would only exhaust memory, so the read fails at once.
+            e.fx.inc("fired.read_inside_sparse_hole");
+            e.log(IoEvent { file: self.id, kind: IoKind::Read, off, req: buf.len() as u64, out: -5 });
+            return Err(io::Error::new(io::ErrorKind::InvalidData, "read inside the sparse hole of the simulated file (no block is stored there)"));
+        }
         let data = self.data.borrow();
-        let avail = (data.len() as u64).saturating_sub(self.pos) as usize;
-        let want = buf.len().min(avail);
+        let logical_len = data.len() as u64 + hole_len;
+        // never serve a read across the hole boundaries in one call (keeps the mapping simple)
+        let mut avail = logical_len.saturating_sub(self.pos);
+        if self.pos < hole_at {
+            avail = avail.min(hole_at - self.pos);
+        } else if self.pos < hole_at.saturating_add(hole_len) {
+            avail = avail.min(hole_at + hole_len - self.pos);
+        }
+        let want = (buf.len() as u64).min(avail) as usize;
         if want == 0 {
             e.log(IoEvent { file: self.id, kind: IoKind::Read, off, req: buf.len() as u64, out: 0 });
             return Ok(0);
@@ -505,7 +532,14 @@ impl Read for SimFile {
             e.fx.inc("fired.short_read");
         }
         let data = self.data.borrow();
-        buf[..n].copy_from_slice(&data[self.pos as usize..self.pos as usize + n]);
+        if self.pos >= hole_at && self.pos < hole_at.saturating_add(hole_len) {
+            for b in buf[..n].iter_mut() {
+                *b = 0;
+            }
+        } else {
+            let phys = if self.pos >= hole_at { self.pos - hole_len } else { self.pos } as usize;
+            buf[..n].copy_from_slice(&data[phys..phys + n]);
+        }
         self.pos += n as u64;
         e.log(IoEvent { file: self.id, kind: IoKind::Read, off, req: buf.len() as u64, out: n as i64 });
         Ok(n)
@@ -626,7 +660,7 @@ impl Seek for SimFile {
             e.log(IoEvent { file: self.id, kind: IoKind::Seek, off: arg, req: code, out: -2 });
             return Err(Self::fault_err(io_kind_for(f.err, IoKind::Seek), f.k));
         }
-        let len = (self.data.borrow().len() + self.pending.len()) as i128;
+        let len = (self.data.borrow().len() + self.pending.len()) as i128 + self.hole.map(|h| h.1 as i128).unwrap_or(0);
         let target: i128 = match to {
             SeekFrom::Start(x) => x as i128,
             SeekFrom::End(x) => len + x as i128,
